@@ -194,17 +194,18 @@ func (f *flowGen) cutPhase() {
 
 func genFlowScenario(t *rapid.T, p flowParams) *Scenario {
 	sc := &Scenario{Servers: rapid.IntRange(1, 2).Draw(t, "servers"), Requests: rapid.IntRange(1, 2).Draw(t, "requests"), Subtree: rapid.IntRange(0, 5).Draw(t, "subtree")}
-	f := &flowGen{t: t, p: p, g: newTgen(t), conn: true, narrow: map[int]bool{}}
-	g := f.g
+	f := &flowGen{t: t, p: p, conn: true, narrow: map[int]bool{}}
 	tg := Target{Name: "dev0", Server: rapid.IntRange(0, sc.Servers-1).Draw(t, "server"), Request: rapid.IntRange(0, sc.Requests-1).Draw(t, "request")}
 	var others []Target
 	if rapid.IntRange(0, 3).Draw(t, "second") == 0 {
-		o := genTarget(t, 1, sc.Servers, sc.Requests)
+		o := genTarget(t, 1, 2, sc.Servers, sc.Requests)
 		if o.Server == tg.Server {
 			f.conn = false
 		}
 		others = append(others, o)
 	}
+	f.g = newTgen(t, tg.Name, peersOf(targetNames(1+len(others)), 0))
+	g := f.g
 	// observers subscribed before the target says anything
 	slowOdds := 1
 	if p.profile == "break" {
@@ -287,6 +288,77 @@ func genFlowScenario(t *rapid.T, p flowParams) *Scenario {
 		}
 	}
 	sc.Observers = f.obs
+	sc.Reuse = genReuse(t, sc.Targets)
+	return sc
+}
+
+// ---- the "quiet" part: targets that have nothing to say for a long REAL time -----------------------------------
+//
+// Every other part's cases live for a few seconds, and the collector they run refreshes its metadata leaves five
+// times a second: no stream is ever idle. Here the collector runs the way it does by default (no periodic
+// metadata), the observers are plain applications - client-library STREAM subscriptions dialled by the library
+// itself (client/gnmi.New) with a short Query.Timeout -, the targets report their state, say nothing for 35-45 s
+// and then change leaves. The oracle is the one of every observer: after quiescence its view equals the targets'
+// final state, and a subscription that ended although nobody cancelled it is a violation (it misses the change).
+// Nothing in gRPC's, the collector's or the client's defaults gives an idle stream up (no keepalive on either
+// side, idle/age limits infinite), so the wait decides nothing; how long a stream really was idle is a label.
+
+var quietMin = 35000 // ms; flag -c01.quietmin (harness self-tests use a short one)
+
+func genQuietScenario(t *rapid.T) *Scenario {
+	sc := &Scenario{Servers: rapid.IntRange(1, 2).Draw(t, "servers"), Requests: rapid.IntRange(1, 2).Draw(t, "requests"), Subtree: rapid.IntRange(0, 5).Draw(t, "subtree"), NoMeta: true}
+	n := rapid.IntRange(1, 2).Draw(t, "ntargets")
+	names := targetNames(n)
+	quiet := rapid.IntRange(quietMin, quietMin+10000).Draw(t, "quietms")
+	for i := rapid.IntRange(2, 3).Draw(t, "nobs"); i > 0; i-- {
+		sc.Observers = append(sc.Observers, Observer{Scope: rapid.IntRange(-1, n-1).Draw(t, "scope"), Clock: 0, Library: true,
+			TimeoutMs: rapid.SampledFrom([]int{2000, 5000}).Draw(t, "timeout")})
+	}
+	narrow := map[int]bool{}
+	for i := range sc.Observers {
+		narrow[i] = rapid.IntRange(0, 3).Draw(t, "narrow") == 0
+	}
+	for i := 0; i < n; i++ {
+		tg := Target{Name: names[i], Server: rapid.IntRange(0, sc.Servers-1).Draw(t, "server"), Request: rapid.IntRange(0, sc.Requests-1).Draw(t, "request")}
+		g := newTgen(t, tg.Name, peersOf(names, i))
+		// the device's state, complete (sync) before it goes quiet
+		pre := rapid.IntRange(2, 6).Draw(t, "pre")
+		syncAt := rapid.IntRange(0, pre).Draw(t, "syncat")
+		for j := 0; j < pre; j++ {
+			if j == syncAt {
+				g.emit(Op{Kind: "sync"})
+			}
+			g.step()
+		}
+		if rapid.Bool().Draw(t, "container") {
+			g.atomic()
+		}
+		if syncAt >= pre {
+			g.emit(Op{Kind: "sync"})
+		}
+		// every observer that watches this target has its walk behind it (bounded: a machine too busy for that
+		// makes the idle time shorter, nothing else)
+		for j, ob := range sc.Observers {
+			if ob.Scope < 0 || ob.Scope == i {
+				g.emit(Op{Kind: "await", Obs: j, Event: "sync", MaxMs: 10000})
+			}
+		}
+		g.emit(Op{Kind: "quiet", N: quiet})
+		// then its state changes: leaves overwritten, added, deleted
+		for before, tries := len(g.ops), 0; len(g.ops) == before && tries < 8; tries++ {
+			g.update()
+		}
+		for x := rapid.IntRange(1, 5).Draw(t, "post"); x > 0; x-- {
+			g.step()
+		}
+		tg.Ops = g.ops
+		sc.Targets = append(sc.Targets, tg)
+	}
+	for i := range sc.Observers {
+		if narrow[i] {
+			sc.Observers[i].Queries = newQueryGen(sc.Targets, sc.Observers[i].Scope).paths(t)
+		}
+	}
 	sc.Reuse = genReuse(t, sc.Targets)
 	return sc
 }
